@@ -37,7 +37,7 @@ ASSUMPTIONS = [
     'during the hostile phase the harness is the peer: what the victim writes is read and ignored (two real Protocols would otherwise bounce an event named send for ever)',
     'a failing case is attributed to known findings only through neutralised twins; when several known triggers are present the smallest set of triggers whose neutralisation makes the case pass is used',
 ]
-REQUIRED = ['locally_fired_event_bound_to_the_peer', 'event_relayed_to_another_connection', 'calls_executed_remotely', 'results_received', 'cut_inside_packet', 'cut_inside_delimiter', 'byte_at_a_time_cases',
+REQUIRED = ['firewalls_given_to_a_node_component_server', 'firewalls_given_to_a_node_component_node', 'firewalls_given_to_a_node_component_client', 'send_and_receive_firewalls_disagree', 'locally_fired_event_bound_to_the_peer', 'event_relayed_to_another_connection', 'calls_executed_remotely', 'results_received', 'cut_inside_packet', 'cut_inside_delimiter', 'byte_at_a_time_cases',
             'packet_over_4k', 'inflight_ge2', 'server_to_client_calls', 'client_to_server_calls', 'send_firewall_rejections',
             'recv_firewall_rejections', 'firewall_consulted', 'receiver_raised', 'receiver_generator', 'hostile_packets',
             'hostile_meta_keys_tried', 'hostile_unhashable_channels', 'hostile_truncated', 'hostile_wrong_type', 'hostile_deep_nesting',
@@ -1159,7 +1159,160 @@ def run_case(case):
         return run_hostile(case)
     if kind == 'roundtrip':
         return run_roundtrip(case)
+    if kind == 'wiring':
+        return run_wiring(case)
     raise ValueError(kind)
+
+
+def run_wiring(case):
+    """The listening node components (circuits.node.server.Server, Node(port=...)) and the connecting one (circuits.node.client.Client)
+    hand the firewalls they were given to the Protocols they create: an event leaves only if the SEND predicate allows it, an arriving
+    event is executed only if the RECEIVE predicate allows it.  Driven with flush() only; the peer is a socket double / a byte string."""
+    from circuits import BaseComponent, handler
+    from circuits.core.events import Event
+    from circuits.net.events import connect, read
+    from circuits.node.utils import dump_event
+    from vlib.inject import FakeSock
+    names = list(case['names'])
+    fw = case.get('fw') or {}
+    log = {'written': [], 'dispatched': [], 'consulted': {'send': 0, 'recv': 0}, 'exc': []}
+
+    def mk(which):
+        pred = fw.get(which)
+        if pred is None:
+            return None
+
+        def f(event, sock=None):
+            log['consulted'][which] += 1
+            return not denied(pred, event.name, list(getattr(event, 'channels', ()) or ()))
+        return f
+
+    class Obs(BaseComponent):
+        @handler('write', channel='*', priority=50)
+        def _vq8_write(self, *args):
+            if args and isinstance(args[-1], bytes):
+                log['written'].append(args[-1])
+
+        @handler(channel='*', priority=60)
+        def _vq8_any(self, event, *args, **kwargs):
+            if event.name in names and hasattr(event, 'node_call_id'):
+                log['dispatched'].append(event.name)
+
+        @handler('exception', channel='*')
+        def _vq8_exc(self, etype, evalue, tb, handler=None, fevent=None):
+            log['exc'].append(repr(evalue))
+
+    root = Obs()
+
+    def settle():
+        for _ in range(400):
+            if not len(root) and not root._tasks:
+                return
+            root.flush()
+            if root._tasks:
+                for t in list(root._tasks):
+                    root.processTask(*t)
+        raise Unsettled('wiring case')
+
+    which = case['which']
+    kw = {'receive_event_firewall': mk('recv'), 'send_event_firewall': mk('send')}
+    sock = FakeSock(('10.0.0.9', 5555))
+    try:
+        if which in ('server', 'node'):
+            if which == 'server':
+                from circuits.node.server import Server
+                srv = Server(0, server_ip='127.0.0.1', channel='node', **kw).register(root)
+            else:
+                from circuits.node.node import Node
+                srv = Node(port=0, server_ip='127.0.0.1', channel='node', **kw).register(root).server
+            settle()
+            root.fire(connect(sock, '10.0.0.9', 5555), 'node')
+            settle()
+
+            def send(ev):
+                it = srv.send(ev, sock)
+                try:
+                    next(it)
+                except StopIteration:
+                    pass
+
+            def receive(data):
+                root.fire(read(sock, data), 'node')
+        else:
+            from circuits.node.client import Client
+            cl = Client('127.0.0.1', 9, channel='nodec', **kw)      # (never started: nothing connects)
+            cl.register(root)
+            for c in list(cl.components):
+                if type(c).__name__ == 'TCPClient':
+                    c.unregister()       # the transport is the harness: what the Protocol writes is collected from the write events
+            settle()
+
+            def send(ev):
+                it = cl.send(ev)
+                try:
+                    next(it)
+                except StopIteration:
+                    pass
+
+            def receive(data):
+                root.fire(read(data), 'nodec')
+        # outgoing
+        for nm in names:
+            ev = Event.create(nm, 1)
+            ev.channels = ('app',)
+            send(ev)
+            settle()
+        sent = []
+        for p in ref_packets(b''.join(log['written'])):
+            if isinstance(p[0], dict) and 'name' in p[0]:
+                sent.append(p[0]['name'])
+        # incoming
+        for i, nm in enumerate(names):
+            ev = Event.create(nm, 2)
+            ev.channels = ('app',)
+            receive(dump_event(ev, 500 + i).encode('utf-8') + DELIM)
+            settle()
+    finally:
+        try:
+            for c in list(root.components):
+                s_ = getattr(c, 'server', None)
+                for x in (c, s_):
+                    sk = getattr(getattr(x, 'server', x), '_sock', None) if x is not None else None
+                    if sk is not None and hasattr(sk, 'close'):
+                        sk.close()
+        except Exception:  # noqa: BLE001
+            pass
+        sock.close()
+    problems = []
+    counts = {}
+    want_sent = [n for n in names if not denied(fw.get('send'), n, ['app'])]
+    want_disp = [n for n in names if not denied(fw.get('recv'), n, ['app'])]
+    extra = [n for n in sent if n not in want_sent]
+    missing = [n for n in want_sent if n not in sent]
+    if extra:
+        problems.append(('FIREWALL_SEND', {'component': which, 'transmitted_although_rejected_by_the_send_firewall': extra, 'send_firewall': fw.get('send'),
+                                           'receive_firewall': fw.get('recv')}, 'wiring-send'))
+    elif fw.get('send') is not None:
+        counts['ok:FIREWALL_SEND'] = len(names)
+    if missing:
+        problems.append(('EXACTLY_ONCE', {'component': which, 'allowed_by_the_send_firewall_but_never_transmitted': missing, 'send_firewall': fw.get('send'),
+                                          'receive_firewall': fw.get('recv')}, 'wiring-lost'))
+    extra = [n for n in log['dispatched'] if n not in want_disp]
+    missing = [n for n in want_disp if log['dispatched'].count(n) != 1]
+    if extra:
+        problems.append(('FIREWALL_RECV', {'component': which, 'executed_although_rejected_by_the_receive_firewall': extra, 'receive_firewall': fw.get('recv'),
+                                           'send_firewall': fw.get('send')}, 'wiring-recv'))
+    elif fw.get('recv') is not None:
+        counts['ok:FIREWALL_RECV'] = len(names)
+    if missing:
+        problems.append(('EXACTLY_ONCE', {'component': which, 'allowed_by_the_receive_firewall_but_not_executed_exactly_once': missing,
+                                          'dispatched': log['dispatched']}, 'wiring-notrun'))
+    else:
+        counts['ok:EXACTLY_ONCE'] = len(want_disp)
+    marks = {'firewalls_given_to_a_node_component_' + which}
+    if fw.get('send') != fw.get('recv'):
+        marks.add('send_and_receive_firewalls_disagree')
+    return problems, {'marks': marks, 'counts': counts, 'nontrivial': fw.get('send') != fw.get('recv')}
 
 
 def passes(case):
@@ -1620,6 +1773,12 @@ def corpus():
         cs.append(calls_case([call('s0', 'hello', [1, {'k': 2}], style=style)], {'hello': 'relay'}, conns=2, topology='hub'))
         cs.append(calls_case([call('s0', 'hello', [i], style=style) for i in range(3)] + [call('s1', 'ping', [7]), call('c1', 'x', [8])],
                              {'hello': 'relay', 'ping': 'ret', 'x': 'echo'}, {'c2s': [7], 's2c': [5]}, conns=3, topology='hub'))
+    # the node components that create the Protocols (listening Server, Node(port=...), connecting Client) hand the right firewall to
+    # the right direction
+    for which in ('server', 'node', 'client'):
+        for fw in ({'send': {'deny_names': ['secret']}, 'recv': {'deny_names': ['admin']}}, {'send': {'deny_names': ['secret']}},
+                   {'recv': {'deny_names': ['admin']}}, {'send': {'deny_all': True}, 'recv': {}}, {'send': {}, 'recv': {'deny_all': True}}, {}):
+            cs.append({'kind': 'wiring', 'which': which, 'names': ['hello', 'secret', 'admin'], 'fw': fw})
     # remote handler raises (plain and generator)
     cs.append(calls_case([call('c0', 'hello', [1])], {'hello': 'boom'}))
     cs.append(calls_case([call('c0', 'hello', [1], style='call', failure=True)], {'hello': 'genboom'}))
